@@ -347,6 +347,20 @@ def run(prog, rep):
     index_space(prog, rep)
     tg = Tagger(prog)
     capture_and_cursor(prog, rep)
+    # the public visitor: every capture of the stanza's query except the internal full-match one is exposed
+    rep.rule("C03.V", "File/Stanza::try_visit_matches expose all named captures of the match: the only filter removes the internal full-match capture, by index, in the index space of the visited query")
+    nv = 0
+    for f in [x for x in prog.fns.values() if x.name == "try_visit_matches" and x.file == "src/execution.rs"]:
+        preds = []
+        for c in prog.all_closures_under(f):
+            if c.output is not None and c.ty(c.output).s == "bool":
+                preds.append((c, canon(Tracer(c.body).local(0))))
+        filters = [t for g in [f] + prog.all_closures_under(f) for b, t in g.body.calls() if is_callee(t, r"Iterator::(filter|filter_map|skip_while|take_while|skip|take|step_by)$")]
+        good = [r for c, r in preds if re.match(r"^\(\*arg:\w+\.2 Ne cast\(\*\*upvar:\w+\.full_match_(stanza|file)_capture_index\)\)$", r)]
+        nv += len(good)
+        rep.check(len(preds) == len(good) and len(filters) == len(good) and good, "C03.V", "%s :: exposed captures" % f.id, f.loc(), "%d visitor construction(s): captures filtered by `index != full-match index` only" % len(good),
+                  "the visitor hides captures by another criterion than the full-match index (predicates: %s; %d filtering adaptors)" % ([r[:80] for c, r in preds], len(filters)))
+    rep.floor("C03.V", nv, 3, "visitor constructions")
     # E3.p
     rep.rule("E3.p", "one pattern per stanza; the merged query text is appended exactly once per stanza, in order; parse_stanza is the only producer of stanzas")
     ctx = e1_panic.Ctx(prog)
